@@ -580,8 +580,13 @@ func (info *Info) FindLookups(lang language.Tag, includeFeature map[string]bool)
 	for tag := range info.ScriptList {
 		tags = append(tags, tag)
 	}
+	// The matcher uses the first tag as the fallback.  Sort the tags, so
+	// that the result does not depend on the map iteration order.
 	// TODO(voss): make sure a sensible default comes first.
 	//     Maybe this could be based on the number of features supported?
+	sort.Slice(tags, func(i, j int) bool {
+		return tags[i].String() < tags[j].String()
+	})
 
 	matcher := language.NewMatcher(tags)
 	_, index, _ := matcher.Match(lang)
